@@ -16,13 +16,13 @@ import json, re, sys
 
 # the literals the grammar coq/Cmd/Spec.v (Lang) was transcribed from
 PINNED_REGEXES = [
-    r"(?i)^ *SET SHARDING KEY TO '?([0-9]+)'? *;? *$",
-    r"(?i)^ *SET SHARD TO '?([0-9]+|ANY)'? *;? *$",
-    r"(?i)^ *SHOW SHARD *;? *$",
-    r"(?i)^ *SET SERVER ROLE TO '(PRIMARY|REPLICA|ANY|AUTO|DEFAULT)' *;? *$",
-    r"(?i)^ *SHOW SERVER ROLE *;? *$",
-    r"(?i)^ *SET PRIMARY READS TO '?(on|off|default)'? *;? *$",
-    r"(?i)^ *SHOW PRIMARY READS *;? *$",
+    r"(?i-u)^ *SET SHARDING KEY TO '?([0-9]+)'? *;? *$",
+    r"(?i-u)^ *SET SHARD TO '?([0-9]+|ANY)'? *;? *$",
+    r"(?i-u)^ *SHOW SHARD *;? *$",
+    r"(?i-u)^ *SET SERVER ROLE TO '(PRIMARY|REPLICA|ANY|AUTO|DEFAULT)' *;? *$",
+    r"(?i-u)^ *SHOW SERVER ROLE *;? *$",
+    r"(?i-u)^ *SET PRIMARY READS TO '?(on|off|default)'? *;? *$",
+    r"(?i-u)^ *SHOW PRIMARY READS *;? *$",
 ]
 COMMANDS = ["SetShardingKey", "SetShard", "ShowShard", "SetServerRole", "ShowServerRole",
             "SetPrimaryReads", "ShowPrimaryReads", "InvalidShardingKey"]
